@@ -18,7 +18,7 @@ from harness.arr import Arr, Tok
 from harness.c02 import RngStub
 from harness.common import qualnames
 from vf.ob import Ob
-from vf.xh import I, B, Reject, pick
+from vf.xh import with_real_dicts, I, B, Reject, pick
 
 KEY = jax.random.key(0)
 N = 3
@@ -74,6 +74,7 @@ AXV = [0, 1, -1]
 
 
 # ------------------------------------------------------------------ lift.vmap
+@with_real_dicts
 def vmap_like_per_index(pa, split, sa, xa, oa, shared, x0, x1, x2, x3, x4, x5, c0, c1,
                         k0, mutable):
   """lift.vmap == calling the body once per index on the slices: 'params' along
@@ -152,6 +153,7 @@ def vmap_like_per_index(pa, split, sa, xa, oa, shared, x0, x1, x2, x3, x4, x5, c
 
 
 # ------------------------------------------------------------------ lift.scan
+@with_real_dicts
 def scan_like_loop(pa, split, use_carry_col, bcast, reverse, xa, oa, use_len,
                    x0, x1, x2, c0, a0, k0):
   """lift.scan == the Python loop: 'params' holds one slice per iteration along
@@ -254,6 +256,7 @@ class PerExample(nn.Module):
     return Arr([int(w[0]) * x.sum(), x.sum()], (2,))
 
 
+@with_real_dicts
 def linen_wrappers(which, pa, split, reverse, x0, x1, x2, c0):
   """nn.scan / nn.vmap over a Module == loop / per-index calls (parameters stacked
   along AXV[pa] under the wrapped module's name; a carried counter collection)"""
